@@ -69,6 +69,9 @@ func (c *Connack) Unpack(r io.Reader) error {
 			return codes.ErrProtocol
 		}
 		c.Properties = &Properties{}
+		if bufr.Len() == 0 { // the Property Length is not optional in CONNACK
+			return codes.ErrMalformed
+		}
 		if err := c.Properties.Unpack(bufr, CONNACK); err != nil {
 			return err
 		}
